@@ -73,11 +73,11 @@ func (r *run) appImpl(a *appCap, ctx context.Context, call *server.Call) error {
 	args := call.Args()
 	token, flags := args.Uint64(0), args.Uint64(8)
 	ac := &appCall{token: token, app: a.id, flags: flags, startSeq: s.Seq(), ctx: ctx}
-	if a.shutdown > 0 {
+	if a.shutdown > 0 && !r.hostile {
 		s.Fail("call_after_shutdown", "rpc.go:(*Conn).handleCall", fmt.Sprintf("call %d delivered to application capability %d after it was shut down", token, a.id))
 		return nil
 	}
-	if old := r.appCalls[token]; old != nil {
+	if old := r.appCalls[token]; old != nil && !r.hostile {
 		s.Fail("delivered_twice", "rpc.go:(*Conn).handleCall", fmt.Sprintf("call with token %d was delivered to the application twice (capabilities %d and %d)", token, old.app, a.id))
 		return nil
 	}
